@@ -742,7 +742,7 @@ impl<'a> Gen<'a> {
         self.no_exit.insert(t);
         // sometimes many traces end during the episode: their finish / cancel signals are all parked
         let mass: Vec<u32> = if self.rng.chance(1, 3) {
-            let m = self.rng.range(18, 70);
+            let m = if self.rng.chance(1, 3) { self.rng.range(70, 320) } else { self.rng.range(18, 70) };
             (0..m)
                 .map(|_| {
                     let l = new_span_label();
@@ -759,7 +759,15 @@ impl<'a> Gen<'a> {
         // 64 sends of an operation may be interleaved with cycles; the rest refills the ring
         let extra = self.rng.range(1, 200) as u32;
         self.push(t, Op::Fill { span: f, n: 10_240 + 64 + extra });
+        // some roots are cancelled during the episode (the cancel is parked deep in the list) and
+        // finished only after it: the finish must not overtake its cancel however long the list is
+        let mut late: Vec<u32> = vec![];
         for l in mass {
+            if self.rng.chance(1, 12) {
+                self.push(t, Op::Cancel { span: l });
+                late.push(l);
+                continue;
+            }
             if self.rng.chance(1, 5) {
                 self.push(t, Op::Cancel { span: l });
             }
@@ -776,6 +784,10 @@ impl<'a> Gen<'a> {
         }
         let hold_to = self.prog.ops.len();
         self.prog.no_cycle.push((hold_from + 1, hold_to));
+        for l in late {
+            self.push(t, Op::Finish { span: l });
+            self.reserved.remove(&l);
+        }
         let n3 = self.rng.range(2, 10);
         for _ in 0..n3 {
             let tt = self.rng.below(self.prog.nthreads);
